@@ -57,6 +57,41 @@ Definition native_ok (S : scheme_ops) (st : native_style) : Prop :=
   forall i t v, iv_wf S i -> native_text st i = Some t -> s_vok S v = true ->
                 s_rcontains S t v = Some (in_interval (s_vcmp S) i v).
 
+(* the same, for bounds that moreover satisfy a scope clause [Q] (the ecosystems' range parsers
+   are characterised on bound texts without separator / operator characters) *)
+Definition bound_ok_q (Q : bytes -> Prop) (S : scheme_ops) (a : bytes) : Prop := bound_ok S a /\ Q a.
+
+Definition iv_wf_q (Q : bytes -> Prop) (S : scheme_ops) (i : interval) : Prop :=
+  match i_exact i, i_lower i, i_upper i with
+  | Some e, None, None => bound_ok_q Q S e
+  | None, Some (a, _), None => bound_ok_q Q S a
+  | None, None, Some (b, _) => bound_ok_q Q S b
+  | None, Some (a, _), Some (b, _) => bound_ok_q Q S a /\ bound_ok_q Q S b /\ s_vcmp S a b = Lt
+  | _, _, _ => False
+  end.
+
+Definition native_ok_q (Q : bytes -> Prop) (S : scheme_ops) (st : native_style) : Prop :=
+  forall i t v, iv_wf_q Q S i -> native_text st i = Some t -> s_vok S v = true ->
+                s_rcontains S t v = Some (in_interval (s_vcmp S) i v).
+
+Lemma iv_wf_q_wf Q S i : iv_wf_q Q S i -> iv_wf S i.
+Proof.
+  destruct i as [[[a ia]|] [[b ib]|] [e|]]; unfold iv_wf_q, iv_wf, bound_ok_q;
+    cbn [i_exact i_lower i_upper]; tauto.
+Qed.
+
+Lemma iv_wf_q_True S i : iv_wf S i -> iv_wf_q (fun _ => True) S i.
+Proof.
+  destruct i as [[[a ia]|] [[b ib]|] [e|]]; unfold iv_wf_q, iv_wf, bound_ok_q;
+    cbn [i_exact i_lower i_upper]; tauto.
+Qed.
+
+Lemma native_ok_q_of Q S st : native_ok S st -> native_ok_q Q S st.
+Proof. intros H i t v W. apply H. apply (iv_wf_q_wf Q S i W). Qed.
+
+Lemma native_ok_of_q S st : native_ok_q (fun _ => True) S st -> native_ok S st.
+Proof. intros H i t v W. apply H. apply iv_wf_q_True. exact W. Qed.
+
 (* ---------- classification of the constraints ---------- *)
 
 Definition is_exact_c (c : vcons) : bool := match fst c with OEq => true | _ => false end.
@@ -105,25 +140,26 @@ Proof.
 Qed.
 
 Section WF.
+  Variable Q : bytes -> Prop.
   Variable S : scheme_ops.
   Let lt (a b : vcons) : Prop := ltc (ccmp S) a b.
-  Let cok' (c : vcons) : Prop := bound_ok S (snd c).
+  Let cok' (c : vcons) : Prop := bound_ok_q Q S (snd c).
 
   Lemma alternating_wf bs : forall pending prev ivs,
     Forall cok' bs -> StronglySorted lt bs ->
     match pending with Some p => cok' p /\ Forall (lt p) bs | None => True end ->
-    alternating pending prev bs = Some ivs -> Forall (iv_wf S) ivs.
+    alternating pending prev bs = Some ivs -> Forall (iv_wf_q Q S) ivs.
   Proof.
     induction bs as [|c r IH]; intros pending prev ivs Hok Hs Hp H.
     - simpl in H. injection H as <-. destruct pending as [p|]; [|constructor].
-      constructor; [|constructor]. unfold iv_wf, iv_lower. simpl. apply Hp.
+      constructor; [|constructor]. unfold iv_wf_q, iv_lower. simpl. apply Hp.
     - inversion Hok as [|? ? Hc Hr]; subst.
       apply StronglySorted_inv in Hs. destruct Hs as [Hs Hcr].
       cbn [alternating] in H.
-      assert (Low : forall pv, alternating (Some c) pv r = Some ivs -> Forall (iv_wf S) ivs).
+      assert (Low : forall pv, alternating (Some c) pv r = Some ivs -> Forall (iv_wf_q Q S) ivs).
       { intros pv Ha. apply (IH (Some c) pv ivs Hr Hs); [|exact Ha]. split; assumption. }
       assert (Up : forall rest, alternating None (Some false) r = Some rest ->
-                     Forall (iv_wf S) rest).
+                     Forall (iv_wf_q Q S) rest).
       { intros rest Ha. apply (IH None (Some false) rest Hr Hs I Ha). }
       destruct prev as [p|].
       + destruct (Bool.eqb p (is_lower_op (fst c))); [discriminate|].
@@ -132,12 +168,12 @@ Section WF.
         injection H as <-. constructor; [|apply Up; reflexivity].
         destruct pending as [lo|].
         * destruct Hp as [Hlo Hlt]. inversion Hlt as [|? ? Hlc _]; subst.
-          unfold iv_wf, iv_both. simpl. repeat split; try apply Hlo; try apply Hc. exact Hlc.
-        * unfold iv_wf, iv_upper. simpl. exact Hc.
+          unfold iv_wf_q, iv_both. simpl. split; [exact Hlo|]. split; [exact Hc|exact Hlc].
+        * unfold iv_wf_q, iv_upper. simpl. exact Hc.
       + destruct (is_lower_op (fst c)); [apply (Low _ H)|].
         destruct (alternating None (Some false) r) as [rest|] eqn:Ha; [|discriminate].
         injection H as <-. constructor; [|apply Up; reflexivity].
-        unfold iv_wf, iv_upper. simpl. exact Hc.
+        unfold iv_wf_q, iv_upper. simpl. exact Hc.
   Qed.
 End WF.
 
@@ -284,8 +320,8 @@ Proof.
     destruct st; eexists; reflexivity.
 Qed.
 
-Lemma any_range_native S st ivs v :
-  native_ok S st -> s_vok S v = true -> Forall (iv_wf S) ivs ->
+Lemma any_range_native Q S st ivs v :
+  native_ok_q Q S st -> s_vok S v = true -> Forall (iv_wf_q Q S) ivs ->
   let texts := filter_some (map (native_text st) ivs) in
   any_range S texts v = b2v (existsb (fun i => in_interval (s_vcmp S) i v) ivs) /\
   (texts = [] <-> ivs = []).
@@ -293,7 +329,7 @@ Proof.
   intros Hn Hv Hw. cbv zeta. induction Hw as [|i r Hi Hr IH].
   - split; [reflexivity|]. simpl. tauto.
   - destruct IH as [IH _].
-    destruct (native_text_wf S st i Hi) as [t Ht].
+    destruct (native_text_wf S st i (iv_wf_q_wf Q S i Hi)) as [t Ht].
     cbn [map filter_some]. rewrite Ht. split; [|split; discriminate].
     cbn [any_range existsb]. rewrite (Hn i t v Hi Ht Hv), IH.
     destruct (in_interval (s_vcmp S) i v); cbn [orb b2v].
@@ -342,33 +378,36 @@ Qed.
 Definition sorted_alternating (S : scheme_ops) (ncs : list vcons) : Prop :=
   StronglySorted (ltc (ccmp S)) ncs /\ alternating None None (filter is_bound_c ncs) <> None.
 
-Theorem C04_contains_generic S st cs ncs v :
-  native_ok S st ->
+Theorem C04_contains_generic_q Q S st cs ncs v :
+  native_ok_q Q S st ->
+  Forall (fun c => Q (snd c)) ncs ->
   s_vok S v = true ->
   normalize S cs = Some ncs -> ncs <> [] ->
   sorted_alternating S ncs ->
   contains_generic S (Some st) cs v = b2v (VS.spec_contains (s_vcmp S) (spec_list ncs) v).
 Proof.
-  intros Hnat Hv Hn Hne [Hs Ha].
+  intros Hnat HQ Hv Hn Hne [Hs Ha].
   rewrite (contains_generic_some S st cs v ncs Hv Hn Hne). cbv zeta.
   destruct (alternating None None (filter is_bound_c ncs)) as [alt|] eqn:A; [|congruence].
   rewrite (group_alt ncs alt A).
-  pose proof (normalize_members_ok S cs ncs Hn) as Hok.
-  assert (Hbok : Forall (fun c => bound_ok S (snd c)) (filter is_bound_c ncs)).
+  assert (Hok : Forall (fun c => bound_ok_q Q S (snd c)) ncs).
+  { pose proof (normalize_members_ok S cs ncs Hn) as Hok0. rewrite Forall_forall in *.
+    intros c Hc. split; [apply Hok0|apply HQ]; exact Hc. }
+  assert (Hbok : Forall (fun c => bound_ok_q Q S (snd c)) (filter is_bound_c ncs)).
   { rewrite Forall_forall in *. intros c Hc. apply Hok. apply filter_In in Hc. apply Hc. }
   assert (Hbs : StronglySorted (ltc (ccmp S)) (filter is_bound_c ncs)).
   { clear -Hs. induction Hs as [|c r Hr IH Hc]; simpl; [constructor|].
     destruct (is_bound_c c); [|exact IH]. constructor; [exact IH|].
     rewrite Forall_forall in *. intros x Hx. apply Hc. apply filter_In in Hx. apply Hx. }
-  assert (Walt : Forall (iv_wf S) alt).
-  { apply (alternating_wf S (filter is_bound_c ncs) None None alt Hbok Hbs I A). }
-  assert (Wex : Forall (iv_wf S) (map iv_exact (filter is_exact_c ncs))).
+  assert (Walt : Forall (iv_wf_q Q S) alt).
+  { apply (alternating_wf Q S (filter is_bound_c ncs) None None alt Hbok Hbs I A). }
+  assert (Wex : Forall (iv_wf_q Q S) (map iv_exact (filter is_exact_c ncs))).
   { rewrite Forall_forall in *. intros i Hi. apply in_map_iff in Hi.
     destruct Hi as (c & <- & Hc). apply filter_In in Hc. destruct Hc as [Hc _].
-    unfold iv_wf, iv_exact. simpl. apply Hok. exact Hc. }
-  assert (W : Forall (iv_wf S) (map iv_exact (filter is_exact_c ncs) ++ alt)).
+    unfold iv_wf_q, iv_exact. simpl. apply Hok. exact Hc. }
+  assert (W : Forall (iv_wf_q Q S) (map iv_exact (filter is_exact_c ncs) ++ alt)).
   { apply Forall_app. split; assumption. }
-  destruct (any_range_native S st _ v Hnat Hv W) as [AR TE]. cbv zeta in AR, TE.
+  destruct (any_range_native Q S st _ v Hnat Hv W) as [AR TE]. cbv zeta in AR, TE.
   rewrite AR. rewrite existsb_app.
   rewrite (exacts_meaning (s_vcmp S) v ncs).
   assert (Bd : Forall (fun c => is_bound_c c = true) (filter is_bound_c ncs)).
@@ -408,6 +447,19 @@ Proof.
         congruence.
       + destruct hit; destruct inb; reflexivity. }
   exact R.
+Qed.
+
+Theorem C04_contains_generic S st cs ncs v :
+  native_ok S st ->
+  s_vok S v = true ->
+  normalize S cs = Some ncs -> ncs <> [] ->
+  sorted_alternating S ncs ->
+  contains_generic S (Some st) cs v = b2v (VS.spec_contains (s_vcmp S) (spec_list ncs) v).
+Proof.
+  intros Hnat Hv Hn Hne Hsa.
+  apply (C04_contains_generic_q (fun _ => True) S st cs ncs v); try assumption.
+  - apply native_ok_q_of. exact Hnat.
+  - rewrite Forall_forall. intros; exact I.
 Qed.
 
 (* the pypi evaluator: the same, behind the model's pre-release gate *)
@@ -595,6 +647,53 @@ Proof.
   - apply C04_contains_generic; assumption.
 Qed.
 
+(* ---------- the scoped forms: [native_ok] only asked for bounds satisfying [Q] ---------- *)
+
+Theorem C04_contains_pypi_q Q S st cs ncs v :
+  native_ok_q Q S st ->
+  Forall (fun c => Q (snd c)) ncs ->
+  s_vok S v = true ->
+  normalize S cs = Some ncs -> ncs <> [] ->
+  sorted_alternating S ncs ->
+  contains_pypi S (Some st) cs v =
+    if pypi_is_prerelease (s_vshow S v) && negb (pypi_names_pre cs) then VFalse
+    else b2v (VS.spec_contains (s_vcmp S) (spec_list ncs) v).
+Proof.
+  intros Hnat HQ Hv Hn Hne Hsa. rewrite contains_pypi_eq, Hv. cbn [negb].
+  rewrite (C04_contains_generic_q Q S st cs ncs v Hnat HQ Hv Hn Hne Hsa).
+  destruct (VS.spec_contains (s_vcmp S) (spec_list ncs) v); reflexivity.
+Qed.
+
+Theorem C04_vers_contains_q Q table styles ops eco ctext version sc st ncs :
+  contains_c "/"%char eco = false ->
+  valid (vers_text eco ctext) <> None ->
+  existsb is_star (split_c "|"%char ctext) = false ->
+  find_scheme eco table = Some sc ->
+  lookup (sc_eco sc) styles = Some st ->
+  let S := ops (sc_eco sc) in
+  let cl := split_c "|"%char ctext in
+  native_ok_q Q S st ->
+  Forall (fun c => Q (snd c)) ncs ->
+  s_vok S version = true ->
+  normalize S cl = Some ncs -> ncs <> [] ->
+  sorted_alternating S ncs ->
+  vers_contains table styles ops (vers_text eco ctext) version =
+    if sc_pypi_gate sc && pypi_is_prerelease (s_vshow S version) && negb (pypi_names_pre cl)
+    then VFalse
+    else b2v (VS.spec_contains (s_vcmp S) (spec_list ncs) version).
+Proof.
+  intros Hs Hv Hst Hf Hl S cl Hnat HQ Hok Hn Hne Hsa.
+  unfold vers_contains.
+  destruct (valid (vers_text eco ctext)) as [[name cl0]|] eqn:V; [|congruence].
+  destruct (valid_text_some _ _ _ _ Hs V) as [-> ->].
+  rewrite Hst. cbn [andb]. rewrite Hf, Hl. fold S. fold cl.
+  destruct (sc_pypi_gate sc); cbn [andb].
+  - apply (C04_contains_pypi_q Q); assumption.
+  - apply (C04_contains_generic_q Q); assumption.
+Qed.
+
+Print Assumptions C04_contains_generic_q.
+Print Assumptions C04_vers_contains_q.
 Print Assumptions alternating_in_bounds.
 Print Assumptions C04_contains_generic.
 Print Assumptions C04_contains_pypi.
